@@ -111,6 +111,6 @@ Check(c) == /\ GenericOk(c) \/ Rep("GENERIC", c)
             /\ TypedOk(c) \/ Rep("TYPED", c)
             /\ TPosOk(c) \/ Rep("TYPEDPOS", c)
             /\ (c.typerr = "" => (c.rtsame /\ c.rtequal)) \/ Rep("ROUNDTRIP", c)
-            /\ (c.typerr # "" \/ GrammarOk(c)) \/ Rep("GRAMMAR", c)
+            /\ (c.typerr # "" \/ c.fam = "F11" \/ GrammarOk(c)) \/ Rep("GRAMMAR", c)   \* (F11: very long / deep constructs, trees only)
 Inv == lvl = 2 => Check(Cases[k])
 =============================================================================
